@@ -342,6 +342,7 @@ class ConsoleThreadLocals(threading.local):
     theme_stack: ThemeStack
     buffer: List[Segment] = field(default_factory=list)
     buffer_index: int = 0
+    capture_marks: List[int] = field(default_factory=list)
 
 
 class RenderHook(ABC):
@@ -598,6 +599,7 @@ class Console:
     def begin_capture(self) -> None:
         """Begin capturing console output. Call :meth:`end_capture` to exit capture mode and return output."""
         self._enter_buffer()
+        self._thread_locals.capture_marks.append(len(self._buffer))
 
     def end_capture(self) -> str:
         """End capture mode and return captured string.
@@ -605,8 +607,10 @@ class Console:
         Returns:
             str: Console output.
         """
-        render_result = self._render_buffer(self._buffer)
-        del self._buffer[:]
+        marks = self._thread_locals.capture_marks
+        start = marks.pop() if marks else 0
+        render_result = self._render_buffer(self._buffer[start:])
+        del self._buffer[start:]
         self._exit_buffer()
         return render_result
 
